@@ -144,9 +144,16 @@ def classify(e, items):
 
 def run_programs(chk, programs):
     """programs: [(case, items)] -> events, meta"""
-    srcs = [source(c, items) for c, items in programs]
-    results = observe.generate(srcs)
     events, meta = [], []
+    for mode in ("single", "multi"):
+        sub = [(c, items) for c, items in programs if c.get("mode", "single") == mode]
+        srcs = [source(c, items) for c, items in sub]
+        results = observe.generate(srcs, multi=(mode == "multi")) if sub else []
+        run_mode(chk, sub, results, srcs, events, meta)
+    return events, meta
+
+
+def run_mode(chk, programs, results, srcs, events, meta):
     for (case, items), per, src in zip(programs, results, srcs):
         has_const = any(it["kind"] == "const" and it["annotated"] for it in items)
         for lang in common.LANGS:
@@ -170,7 +177,6 @@ def run_programs(chk, programs):
             defs, extras = observe_defs(lang, r["obs"], items)
             events.append({"lang": lang, "items": items, "defs": defs, "extras": extras, "status": "ok"})
             meta.append((lang, case, items, src))
-    return events, meta
 
 
 def run(chk):
@@ -207,7 +213,7 @@ def run(chk):
                     ms[0] = dict(ms[0], skipped=False, payload="newtype", fields=[])
             items.append({"name": name, "kind": k, "annotated": rng.random() < 0.7, "members": ms})
         case = {"annotation": rng.choice(["plain", "path", "args"]) if items[0]["annotated"] else "none", "nesting": rng.choice(["top", "mod1", "mod2", "fn_body"]),
-                "spelling": rng.choice(list(SKIP)), "kind": items[0]["kind"], "skips": "random"}
+                "spelling": rng.choice(list(SKIP)), "kind": items[0]["kind"], "skips": "random", "mode": rng.choice(["single", "multi"])}
         if not any(it["annotated"] for it in items):
             items[1]["annotated"] = True
         programs.append((case, items))
@@ -223,7 +229,7 @@ def run(chk):
             e = events[part[b - 1]]
             nbad += 1
             for kind, ik in classify(e, items):
-                chk.mismatch(f"C03/{lang}/{ik}/{case['nesting'] if kind in ('silent-omission', 'missing-def') else 'anynest'}/"
+                chk.mismatch(f"C03/{lang}{'+folder' if case.get('mode') == 'multi' else ''}/{ik}/{case['nesting'] if kind in ('silent-omission', 'missing-def') else 'anynest'}/"
                              f"{case['spelling'] if 'member' in kind or 'field' in kind else 'anyspelling'}/{kind}",
                              f"{lang}: {kind} ({ik}) for case {case}: defs {e['defs']} extras {e['extras']}", {"case": case, "items": items, "lang": lang},
                              "Program!ExpectedDefs", e["defs"])
